@@ -56,6 +56,8 @@ def jitter_case(draw):
         "r": draw(draw_r),
         "klass": draw(st.sampled_from([k.name for k in ErrorClass])),
         "defaults": draw(st.integers(0, 9)) == 0,
+        # the same strategy object serves many runs: earlier calls (any attempt numbers, in any order) come first
+        "warm": draw(st.one_of(st.just([]), st.lists(st.tuples(attempts, draw_r), max_size=3))),
     }
 
 
@@ -82,7 +84,20 @@ def check_jitter(case: dict) -> Verdict:
     else:
         base, mx = case["base"], case["max"]
         f = getattr(S, fn)(base_s=base, max_s=mx)
-    attempt, prev, r = case["attempt"], case["prev"], case["r"]
+    for wa, wr in case.get("warm") or []:
+        sub = check_jitter_one(case, f, fn, base, mx, wa, None, wr)
+        v.violations.extend(sub.violations)
+    last = check_jitter_one(case, f, fn, base, mx, case["attempt"], case["prev"], case["r"])
+    last.violations = v.violations + last.violations
+    if case.get("warm"):
+        last.tag("strategy-object-reused")
+        if any(wa > case["attempt"] for wa, _ in case["warm"]):
+            last.tag("lower-attempt-after-higher")
+    return last
+
+
+def check_jitter_one(case: dict, f, fn: str, base: float, mx: float, attempt: int, prev, r: float) -> Verdict:
+    v = Verdict()
     bootstrap.set_draw(r)
     try:
         try:
